@@ -107,10 +107,13 @@ impl<'a, 'tcx> Cx<'a, 'tcx> {
                         let _ = write!(o, ",\"str\":{}", esc(&String::from_utf8_lossy(b)));
                     } else { let _ = write!(o, ",\"bytes\":{}", bytes_json(b)); }
                 }
-            } else if let ConstValue::Scalar(rustc_middle::mir::interpret::Scalar::Ptr(ptr, _)) = val {
-                let (prov, off) = ptr.prov_and_relative_offset();
-                let mut alloc_id = prov.alloc_id();
-                let mut offset = off.bytes() as usize;
+            } else if let Some((aid0, off0)) = match val {
+                ConstValue::Scalar(rustc_middle::mir::interpret::Scalar::Ptr(ptr, _)) => { let (prov, off) = ptr.prov_and_relative_offset(); Some((prov.alloc_id(), off.bytes() as usize)) }
+                ConstValue::Indirect { alloc_id, offset } if matches!(ty.kind(), ty::Array(..)) => Some((alloc_id, offset.bytes() as usize)),
+                _ => None,
+            } {
+                let mut alloc_id = aid0;
+                let mut offset = off0;
                 // follow `&&[u8; N]`-style constants: an allocation that only holds one pointer
                 for _ in 0..3 {
                     if let rustc_middle::mir::interpret::GlobalAlloc::Memory(a) = self.tcx.global_alloc(alloc_id) {
@@ -129,6 +132,50 @@ impl<'a, 'tcx> Cx<'a, 'tcx> {
                         let b = a.inspect_with_uninit_and_ptr_outside_interpreter(offset.min(len)..len);
                         let _ = write!(o, ",\"bytes\":{}", bytes_json(b));
                         if let Some(v) = self.enum_variant_of(ty, b) { let _ = write!(o, ",\"enum_variant\":{}", esc(&v)); }
+                        // constant tables: `&[&str; N]` and `&[Enum; N]`
+                        let mut peeled = ty;
+                        while let ty::Ref(_, t, _) = peeled.kind() { peeled = *t; }
+                        if let ty::Array(elem, n) = peeled.kind() {
+                            if let Some(n) = n.try_to_target_usize(self.tcx) {
+                                let n = n as usize;
+                                if matches!(elem.kind(), ty::Ref(_, t, _) if t.is_str()) && b.len() >= 16 * n {
+                                    let mut items: Vec<String> = vec![];
+                                    let ptrs = a.provenance().ptrs();
+                                    for i in 0..n {
+                                        let eo = offset + 16 * i;
+                                        let mut found = None;
+                                        for (poff, p) in ptrs.iter() { if poff.bytes() as usize == eo { found = Some(p.alloc_id()); } }
+                                        let raw = a.inspect_with_uninit_and_ptr_outside_interpreter(eo..eo + 16);
+                                        let mut arr = [0u8; 8];
+                                        arr.copy_from_slice(&raw[0..8]);
+                                        let ioff = u64::from_le_bytes(arr) as usize;
+                                        arr.copy_from_slice(&raw[8..16]);
+                                        let ilen = u64::from_le_bytes(arr) as usize;
+                                        let mut ok = false;
+                                        if let Some(aid) = found {
+                                            if let rustc_middle::mir::interpret::GlobalAlloc::Memory(ia) = self.tcx.global_alloc(aid) {
+                                                let ia = ia.inner();
+                                                if ioff + ilen <= ia.len() {
+                                                    let sb = ia.inspect_with_uninit_and_ptr_outside_interpreter(ioff..ioff + ilen);
+                                                    if let Ok(st) = std::str::from_utf8(sb) { items.push(esc(st)); ok = true; }
+                                                }
+                                            }
+                                        }
+                                        if !ok { items.clear(); break; }
+                                    }
+                                    if items.len() == n { let _ = write!(o, ",\"str_array\":[{}]", items.join(",")); }
+                                } else if let ty::Adt(d, _) = elem.kind() {
+                                    if d.is_enum() && n > 0 && b.len() % n == 0 {
+                                        let es = b.len() / n;
+                                        let mut items: Vec<String> = vec![];
+                                        for i in 0..n {
+                                            match self.enum_variant_of(*elem, &b[i * es..(i + 1) * es]) { Some(v) => items.push(esc(&v)), None => { items.clear(); break; } }
+                                        }
+                                        if items.len() == n { let _ = write!(o, ",\"enum_array\":[{}],\"enum_ty\":{}", items.join(","), esc(&self.tcx.def_path_str(d.did()))); }
+                                    }
+                                }
+                            }
+                        }
                         // payload of `Some("literal")`-like constants: one pointer + length
                         let ptrs = a.provenance().ptrs();
                         if ptrs.len() == 1 && b.len() == 16 {
